@@ -489,6 +489,43 @@ def _mask(ctx) -> None:
     ctx.ob("d.dispatch-exhaustive", tc, "table-compare-forms", not tprobs and col_pair >= 1 and row_pair >= 1,
            f"{col_pair} column-wise form(s) guarded by 2-D-ness, {row_pair} row-wise form(s) keeping None rows False", tc.node,
            message="Table._elementwise_compare: " + ("; ".join(tprobs) or "column-wise / row-wise forms not found"))
+    # row['name'] (and so t[i, 'name']) names a COLUMN of the table: the cell comes out of the row's column snapshot at a position found
+    # by the exact stored name first, then the accessor map - never through getattr on the Row (methods, properties and private slots
+    # of the Row would answer, and the lower-cased accessor map alone would send 'A' to column 'a'); a missing column raises
+    rg = prog.func("table.Row.__getitem__")
+    ri_ = _iof(prog, rg)
+    RS_, RK_ = ("param", rg.params[0]), ("param", rg.params[1])
+    rprobs = []
+    is_str_path = lambda conds: any(pol and c[0] == "cmp" and c[1] in ("Is", "Eq") and ("name", "str") in (c[2], c[3])
+                                    and any(x == RK_ for x in subterms(c)) for c, pol in flatten_conds(conds)) or \
+        any(pol and c[0] == "call" and c[1] == ("name", "isinstance") and c[2] == (RK_, ("name", "str")) for c, pol in flatten_conds(conds))
+    str_events = [e for e in ri_.events if is_str_path(e.conds)]
+    if not str_events:
+        rprobs.append("no branch for a string key")
+    for e in str_events:
+        if e.kind == "call" and e.term[1] == ("name", "getattr") and e.term[2][:1] == (RS_,):
+            rprobs.append(f"a string key is resolved by `{show(e.term, ri_)[:40]}`: attributes, methods and private slots of the Row answer for "
+                          f"column names (t[1, 'name'], t[1, 'sum']), and a column whose stored name is not its accessor is not found")
+    srets = [e for e in str_events if e.kind == "return"]
+    names_seq = ("attr", RS_, "_names")
+    exact_first = False
+    for e in srets:
+        for x in subterms(e.term):
+            if x[0] == "first" and x[1] in ri_.loops:
+                lp_ = ri_.loops[x[1]]
+                dom_ = lp_.domain if lp_.domain is not None else lp_.iter
+                doms_ = list(dom_[1]) if dom_ is not None and dom_[0] == "tuple" else [dom_]
+                if names_seq in doms_ or lp_.iter == ("call", ("name", "enumerate"), (names_seq,), ()):
+                    found_ = [flatten_conds(c) for c in lp_.found]
+                    if any(len(fc) == 1 and fc[0][1] and fc[0][0][0] == "cmp" and fc[0][0][1] == "Eq" and RK_ in (fc[0][0][2], fc[0][0][3])
+                           for fc in found_):
+                        exact_first = True
+    if srets and not exact_first:
+        rprobs.append("the position is not looked up by the exact stored name (a scan of the row's name snapshot for `name == key`) first")
+    if not any(e.kind == "raise" and e.term[0] == "call" and e.term[1][0] == "name" and "KeyError" in e.term[1][1] for e in str_events):
+        rprobs.append("a column that does not exist is not an error (no SerifKeyError on the string path)")
+    ctx.ob("d.dispatch-exhaustive", rg, "row-item-by-name", not rprobs, "row[name]: exact stored name, then accessor map, else SerifKeyError",
+           rg.node, message="Row.__getitem__: " + "; ".join(rprobs[:2]))
     # one name and a tuple of names are resolved by the same forms (exact stored name; accessor name; <accessor>__<position>;
     # col<position>_): t['col_a'] and t['col_a',] find the same column
     single, multi = _name_forms(prog)
@@ -885,6 +922,12 @@ def _rows(ctx) -> None:
 
 _V, _T = "vector", "table"
 MUTANTS = [
+    dict(id="row-item-through-getattr", module="table",
+         old="			col_idx = None\n			for i, name in enumerate(self._names):\n				if name == key:\n					col_idx = i\n					break\n			if col_idx is None:\n				col_idx = self._column_map.get(key)\n			if col_idx is None:\n				col_idx = self._column_map.get(key.lower())\n			if col_idx is None:\n				raise SerifKeyError(f\"Column '{key}' not found\")\n			return self._raw_cols[col_idx][self._index]",
+         new="			return getattr(self, key)", rules=["d.dispatch-exhaustive"], desc="reverts fix 5d3e9bd"),
+    dict(id="row-item-map-only", module="table",
+         old="			col_idx = None\n			for i, name in enumerate(self._names):\n				if name == key:\n					col_idx = i\n					break\n			if col_idx is None:\n				col_idx = self._column_map.get(key)",
+         new="			col_idx = self._column_map.get(key)", rules=["d.dispatch-exhaustive"], desc="t[1, 'A'] reads column 'a' when both exist"),
     dict(id="table-compare-any-vector-as-table", module="table",
          old="		if isinstance(other, Vector) and other.ndims() == 2:\n			# (a table; a plain vector",
          new="		if isinstance(other, Vector):\n			# (a table; a plain vector", rules=["d.dispatch-exhaustive"], desc="reverts fix 804fe3e"),
